@@ -25,8 +25,7 @@ def run(props=None, root=None):
     for prop in props:
         try:
             rep = core.Report(prop, "quick", repo)
-            importlib.import_module(f"sa.props.{prop}").check(repo, rep)
-            rep.check_floors()
+            core.run_check(importlib.import_module(f"sa.props.{prop}"), repo, rep)
             un = [v for v in rep.violations if core.match_known(v, known) is None]
             out[prop] = (1 if un else 0, sorted({v.rule for v in un}))
         except Exception as e:  # noqa: BLE001
